@@ -2,7 +2,7 @@
    FULL STATEMENT (decided by the differential check): kept items are never altered by maintenance, removed /
    replaced items are in original or filtered form and stay filtered until rewritten, filters apply to exactly
    the assigned keyspace names on creation and on recovery.  Proved parts are named ..._partial. *)
-From FJ Require Import Bytes Codec Lsm Db Prog MapP FilterP.
+From FJ Require Import Bytes Codec Reader Lsm Tracker Db Prog MapP FilterP DbOrderP RefineP.
 
 (* the stream applies the verdict to the newest version of a key: Keep leaves it untouched, Remove turns it
    into a tombstone with the same seqno, Replace substitutes the value; key and seqno never change *)
@@ -44,6 +44,37 @@ Theorem C18_stays_filtered_refuted :
   nth 6 out (Ox ObOk) = Ox (ObOpt None) /\ nth 9 out (Ox ObOk) = Ox (ObOpt (Some [170%N])).
 Proof. exact remove_verdict_resurrects. Qed.
 
+(* at the level of the database model, for every reachable state (DInv) and every key of the compacted keyspace: a major
+   compaction leaves the latest read as it is when the keyspace has no filter or the verdict for the key is Keep; under Remove
+   the read is unchanged or absent; under Replace v it is unchanged or — only if the key was present — v.  Nothing else. *)
+Theorem C18_compaction_acts_as_the_verdict_says : forall (I : N) (d : db) (id : N) (ev : bool) (ks : kspace) (k0 : bytes),
+  DInv d -> d_seqno d <= I -> ks_of d id = Some ks ->
+  let a := absd I d id k0 in
+  let a' := absd I (do_compact d id ev) id k0 in
+  match k_filter ks with
+  | None => a' = a
+  | Some r => match rule_verdict r k0 with
+              | FKeep => a' = a
+              | FRemove => a' = a \/ a' = None
+              | FReplace v => a' = a \/ (a <> None /\ a' = Some v)
+              end
+  end.
+Proof. exact do_compact_verdict. Qed.
+
+(* ... and every other keyspace is untouched by it, filtered or not *)
+Theorem C18_compaction_touches_only_its_keyspace : forall (I : N) (d : db) (id : N) (ev : bool) (i : N) (k0 : bytes),
+  DInv d -> d_seqno d <= I -> i <> id -> absd I (do_compact d id ev) i k0 = absd I d i k0.
+Proof. exact do_compact_others. Qed.
+
+(* flush, rotation, worker steps never apply a filter: on every keyspace, filtered or not, they leave every read as it is *)
+Theorem C18_other_maintenance_never_filters : forall (I : N) (d : db) (id : N) (i : N) (k : bytes),
+  DInv d -> d_seqno (fst (do_step d)) <= I ->
+  absd I (fst (do_rotate d id)) i k = absd I d i k /\ absd I (fst (do_step d)) i k = absd I d i k.
+Proof. intros I d id i k H L. split; [apply do_rotate_refines, H|apply do_step_refines; assumption]. Qed.
+
+Print Assumptions C18_compaction_acts_as_the_verdict_says.
+Print Assumptions C18_compaction_touches_only_its_keyspace.
+Print Assumptions C18_other_maintenance_never_filters.
 Print Assumptions C18_filter_verdicts_partial.
 Print Assumptions C18_assignment_on_create_partial.
 Print Assumptions C18_filtered_form_stable_partial.
